@@ -1,0 +1,62 @@
+//go:build verif
+
+// Contracts for package feeder, checked by /verif/govc (see /verif/DESIGN.md, C13).
+// This file contains no code: only structured //@ comments keyed by function.
+
+package feeder
+
+// One attempt of the retry loop (the closure passed to backoff.Retry).
+//@ func submitToWitness$1
+//@   returns (err)
+//@   let id      := opts.LogID
+//@   let updated := n_upd == old(n_upd) + 1
+//@   let gotCP   := len(glc_out) > 0
+//@   let wS      := cpSize(text(glc_out))
+//@   let wH      := cpHash(text(glc_out))
+//@   let same    := gotCP && wS == cpSubmit.Size && str(wH) == str(cpSubmit.Hash)
+//@   let getOK   := glc_err == nil || errIs(glc_err, os.ErrNotExist)
+//@   requires opts.Witness != nil && opts.LogSigVerifier != nil
+//@   modifies n_ro, ro_err, n_gl, gl_err, gl_val, gl_h, n_glc, glc_id, glc_out, glc_err
+//@   modifies n_wo, wo_err, wo_h, n_set, set_err, set_arg, set_h, n_close, close_h, n_commit, n_sign, sign_err, sign_out, sign_n, st_has, st_val, cnt
+//@   modifies n_upd, upd_id, upd_old, upd_cp, upd_proof, upd_out, upd_err, n_fp, fp_from_size, fp_from_hash, fp_to_size, fp_to_hash, fp_out, fp_err, *addr(returnCp)
+//@   // exactly one question to the witness per attempt, at most one update, for this log
+//@   ensures[C13.1] n_glc == old(n_glc) + 1 && glc_id == id && n_upd <= old(n_upd) + 1 && n_fp <= old(n_fp) + 1
+//@   // an update is only attempted after the witness answered (with a checkpoint, or "none yet") ...
+//@   ensures[C13.2] updated ==> getOK && upd_id == id && upd_cp == old(cpRaw)
+//@   // ... with the size of exactly that answer as old size (0 when the witness has none), which verified under the log's key and origin
+//@   ensures[C13.3] updated && gotCP ==> parsesAs(glc_out, opts.LogOrigin, opts.LogSigVerifier) && upd_old == wS
+//@   ensures[C13.3] updated && !gotCP ==> upd_old == 0
+//@   // the proof is empty for a refresh, otherwise exactly what FetchProof returned for (witness checkpoint -> submitted checkpoint)
+//@   ensures[C13.4] updated && same ==> len(upd_proof) == 0 && n_fp == old(n_fp)
+//@   ensures[C13.4] updated && !same ==> n_fp == old(n_fp) + 1 && fp_err == nil && upd_proof == fp_out && fp_to_size == cpSubmit.Size && fp_to_hash == cpSubmit.Hash
+//@   ensures[C13.4] updated && !same && gotCP ==> fp_from_size == wS && fp_from_hash == wH
+//@   ensures[C13.4] updated && !same && !gotCP ==> fp_from_size == 0
+//@   // never submits when the witness is already ahead: permanent error, no update
+//@   ensures[C13.5] getOK && gotCP && parsesAs(glc_out, opts.LogOrigin, opts.LogSigVerifier) && wS > cpSubmit.Size ==> !updated && err != nil && permanent(err)
+//@   // any failing step: no update after it, a non-permanent error (so the retry loop goes on)
+//@   ensures[C13.6] !getOK ==> !updated && err != nil && !permanent(err)
+//@   ensures[C13.6] n_fp == old(n_fp) + 1 && fp_err != nil ==> !updated && err != nil && !permanent(err)
+//@   ensures[C13.6] updated && upd_err != nil ==> err != nil && !permanent(err)
+//@   // success: the witness accepted, and its cosigned checkpoint is what the caller gets
+//@   ensures[C13.7] err == nil ==> updated && upd_err == nil && returnCp == upd_out
+
+//@ func submitToWitness
+//@   returns (out, err)
+//@   requires opts.Witness != nil && opts.LogSigVerifier != nil
+//@   modifies n_ro, ro_err, n_gl, gl_err, gl_val, gl_h, n_glc, glc_id, glc_out, glc_err
+//@   modifies n_wo, wo_err, wo_h, n_set, set_err, set_arg, set_h, n_close, close_h, n_commit, n_sign, sign_err, sign_out, sign_n, st_has, st_val, cnt
+//@   modifies n_upd, upd_id, upd_old, upd_cp, upd_proof, upd_out, upd_err, n_fp, fp_from_size, fp_from_hash, fp_to_size, fp_to_hash, fp_out, fp_err
+//@   // on success the result is what the last update returned, for the checkpoint bytes that were handed in
+//@   ensures[C13.8] err == nil ==> out == upd_out && upd_err == nil && upd_id == opts.LogID && upd_cp == cpRaw
+
+//@ func FeedOnce
+//@   returns (out, err)
+//@   requires opts.Witness != nil && opts.LogSigVerifier != nil && opts.FetchCheckpoint != nil
+//@   modifies n_ro, ro_err, n_gl, gl_err, gl_val, gl_h, n_glc, glc_id, glc_out, glc_err, n_fc, fc_out, fc_err
+//@   modifies n_wo, wo_err, wo_h, n_set, set_err, set_arg, set_h, n_close, close_h, n_commit, n_sign, sign_err, sign_out, sign_n, st_has, st_val, cnt
+//@   modifies n_upd, upd_id, upd_old, upd_cp, upd_proof, upd_out, upd_err, n_fp, fp_from_size, fp_from_hash, fp_to_size, fp_to_hash, fp_out, fp_err
+//@   // nothing is sent to the witness unless the fetched checkpoint verifies under the log's key and origin
+//@   ensures[C13.9] n_fc == old(n_fc) + 1
+//@   ensures[C13.9] fc_err != nil || !parsesAs(fc_out, opts.LogOrigin, opts.LogSigVerifier) ==> err != nil && n_upd == old(n_upd) && n_glc == old(n_glc) && out == nil
+//@   // what is submitted is byte-identical to what was fetched; success returns the witness's cosigned checkpoint
+//@   ensures[C13.9] err == nil ==> out == upd_out && upd_err == nil && upd_cp == fc_out && upd_id == opts.LogID
